@@ -84,6 +84,8 @@ func mergeStats(dst, src *RunStats) {
 	dst.Unobservable += src.Unobservable
 	dst.DSTCrossed += src.DSTCrossed
 	dst.GCBetweenKV += src.GCBetweenKV
+	dst.SyncYields += src.SyncYields
+	dst.BlockedInLibrary += src.BlockedInLibrary
 	if src.MaxWindow > dst.MaxWindow {
 		dst.MaxWindow = src.MaxWindow
 	}
